@@ -4,6 +4,7 @@
 From Coq Require Import ExtrOcamlBasic ZArith NArith List.
 From Clemens Require Import Base.Res Base.Word Base.Bytes Search.Time.
 From Clemens Require Import Pos.Types Att.Attacks Pos.Position Pos.Fen.
+From Clemens Require Rules.Fide Rules.SpecFen.
 From ClemensGen Require Import GoConsts.
 
 (* the model instantiated with the constants of the current Go build *)
@@ -31,4 +32,7 @@ Extraction "clemens_model.ml"
   rook_attacks bishop_attacks queen_attacks rook_walk bishop_walk rook_mask bishop_mask
   knight_attacks king_attacks pawn_attacks pushes_by_square all_subsets magic_index
   popcount lsb bits
+  Rules.SpecFen.read_fen Rules.SpecFen.show_fen Rules.SpecFen.show_move Rules.SpecFen.read_move
+  Rules.Fide.legal_moves_fast Rules.Fide.legal_moves Rules.Fide.apply Rules.Fide.perft Rules.Fide.in_check
+  Rules.Fide.checkmate Rules.Fide.stalemate Rules.Fide.initial Rules.Fide.legal
   Z.of_N Z.to_N N.of_nat N.to_nat Z.opp Z.add Z.mul N.add N.mul.
